@@ -271,6 +271,7 @@ class Program:
                 else:
                     unknown = True
         self._known_pairs = known
+        rlog += self._inline_new_constants()
         if not unknown:
             return rlog
         log, self.inline_findings = inline_unknown_helpers(self.modules, known)
@@ -387,6 +388,49 @@ class Program:
                         walk(cs.body)
 
         walk(f.node.body)
+
+    def _inline_new_constants(self) -> list[str]:
+        """a module-level scalar constant that the reviewed tree does not have (`_SCOPE_SELECTOR = "@"`, a message, an encoding
+        name) is read as its literal value wherever it is used: "turn a repeated literal into a constant" leaves every rule
+        looking at the literal it reviewed"""
+        from sa.tables.known_functions import KNOWN_MODULE_NAMES
+        log = []
+        for rel, tree in self.modules.items():
+            known = set(KNOWN_MODULE_NAMES.get(rel, ()))
+            consts = {}
+            for st in tree.body:
+                if isinstance(st, (ast.Assign, ast.AnnAssign)) and getattr(st, "value", None) is not None:
+                    tg = st.targets if isinstance(st, ast.Assign) else [st.target]
+                    v = st.value
+                    if len(tg) == 1 and isinstance(tg[0], ast.Name) and tg[0].id not in known and isinstance(v, ast.Constant) \
+                            and isinstance(v.value, (str, int, float, bytes, bool, type(None))):
+                        consts[tg[0].id] = v
+            # never rebound anywhere in the module
+            for n in ast.walk(tree):
+                if isinstance(n, ast.Name) and isinstance(n.ctx, (ast.Store, ast.Del)) and n.id in consts:
+                    defs = [st for st in tree.body if isinstance(st, (ast.Assign, ast.AnnAssign)) and n in ast.walk(st)]
+                    if not defs:
+                        consts.pop(n.id, None)
+            if not consts:
+                continue
+            users = [(rel, tree)]
+            modname = rel[:-3].replace("/", ".")
+            for orel, otree in self.modules.items():
+                if orel != rel and any(isinstance(n, ast.ImportFrom) and n.module and (n.module == modname or modname.endswith("." + n.module))
+                                       and any(a.name in consts and a.asname is None for a in n.names) for n in ast.walk(otree)):
+                    users.append((orel, otree))
+
+            class Rep(ast.NodeTransformer):
+                def visit_Name(self, n):
+                    if isinstance(n.ctx, ast.Load) and n.id in consts:
+                        return ast.copy_location(ast.Constant(value=consts[n.id].value), n)
+                    return n
+
+            for _orel, otree in users:
+                Rep().visit(otree)
+                ast.fix_missing_locations(otree)
+            log.append(f"{rel}: new constant(s) {sorted(consts)} read as their literal values")
+        return log
 
     def reviewed_key(self, key: str) -> str:
         """the key under which reviewed tables know the function `key`: its former key when it was renamed/moved; for a
